@@ -16,22 +16,22 @@ NA = {
 }
 CHECKS = {
  "C02": ("deterministic simulation: seeded histories of add/herald/primitive calls on shared parents; step-by-step refinement against a labelled-mode wiring model (own Ryser permanent)",
-         "Seeded search over construction histories (orders of additions to the same parent, nesting, grouping, herald declaration orders, in!=out heralds, occasional rejected adds); after each step the heralded transition amplitudes of the real circuit must equal those of an executable wiring model composed by the words of the property.",
+         "Seeded search over construction histories (orders of additions to the same parent, nesting, grouping, herald declaration orders, in!=out heralds, occasional rejected adds); after each step the heralded transition amplitudes of the real circuit must equal those of an executable wiring model composed by the words of the property (computed from U_full/heralds with the harness's permanent, and for a sample of pairs also read through Simulator.simulate).",
          "Trusted: component matrices and flat-circuit unitaries are taken from the real code (C01's matter); the harness's Ryser permanent and wiring model; amplitudes sampled (all single-photon pairs, seeded multi-photon pairs)."),
  "C07": ("deterministic simulation with PRNG-stream fault injection; exact per-call checks, same-seed-twice pairs around injected PRNG perturbations, Bernstein-bounded comparison with an independent detector-pipeline model",
-         "Seeded lab sessions with long-lived samplers sharing detectors and the process-global PRNG stream; every sampling call is checked exactly (heralds, post-selection, min_detection, threshold, counts), seeded calls are issued twice around PRNG perturbations, and frequencies are compared with the sampler's own distribution pushed through an independent model of the documented detector pipeline (Bernstein bound, delta=1e-9 per batch).",
+         "Seeded lab sessions with long-lived samplers sharing detectors and the process-global PRNG stream; every sampling call is checked exactly (heralds, post-selection against the rules the harness saw accepted, min_detection, threshold, counts; an undocumented exception on a valid configuration is a failure to return), seeded calls are issued twice around PRNG perturbations, and frequencies are compared with the sampler's own distribution pushed through an independent model of the documented detector pipeline (Bernstein bound, delta=1e-9 per batch).",
          "Trusted: the sampler's own probability_distribution is taken as given (C04/C05); statistical part has false-alarm probability <= 1e-9 per batch over the choice of VERIF_SEED; all seeds derive from VERIF_SEED so the verdict is repeatable."),
  "C08": ("deterministic simulation with fault injection: seeded schedule of API calls by several clients on shared objects + catalogue of rejected calls; frame-condition invariant after every step",
-         "Seeded search over histories in which the same circuit objects (including the module-level shared gate instances) are reused as arguments; after every step every circuit/state that is not a declared target must be bit-identical, and after a call that raised nothing at all may have changed.",
+         "Seeded search over histories in which the same circuit objects (including the module-level shared gate instances) are reused as arguments; after every step every circuit/state that is not a declared target must be bit-identical, and after a call that raised nothing at all may have changed; argument circuits must also answer a fixed follow-up program as before (state the four observables do not show), and caller-side mutation of an array handed over earlier (no library call) may change nothing.",
          "Trusted: the harness's declaration of targets per operation (DESIGN Appendix A), numpy equality, fork isolation between runs."),
  "C09": ("deterministic simulation: rewrites scheduled between other clients' steps, including under live consumers; invariance + sharing checks by later mutation",
-         "Seeded histories in which rewrites and (frozen) copies are applied to circuits other parties hold; U_full/heralds/sizes before vs after (1e-9), structure postconditions, parameter list of the original around copy(), and bit-identity of every copy-related object under later mutation of the other.",
+         "Seeded histories in which rewrites and (frozen) copies are applied to circuits other parties hold; U_full/heralds/sizes before vs after (1e-9), structure postconditions, parameter list of the original around copy(), bit-identity of every copy-related object under later mutation of the other, an un-rewritten twin followed through later parameter updates, and unchanged later behaviour of heralded relatives.",
          "Trusted: obs() of circuits through the public API; structure postconditions read _get_circuit_spec(). The 'U unchanged' clause is sampled by the histories produced, nothing more."),
  "C10": ("deterministic simulation with fault injection (rejected updates, poison/heal): parameter-triple model, constant-twin refinement, parameter-list check after every step",
          "Seeded interleavings of parameter updates (direct, through ParameterDict, bounds, rejected ones, component-invalid 'poison' values and their healing) with construction, copying, freezing, rewriting and reads; every circuit with parameters is compared after every step with a twin rebuilt from its construction log with constants.",
          "Trusted: the construction log kept by the harness and the twin builder (plain lightworks calls without Parameter objects)."),
  "C11": ("deterministic simulation with fault injection (poison/heal, failing predicates, rejected setters): fresh-object comparator piggy-backed on the clients' own reads and sampling calls",
-         "Seeded reconfiguration histories of long-lived Sampler/QuickSampler/Analyzer objects (reassignment, in-place edits of circuit/parameters/source/detector/post-selection, herald variants with equal unitary); each read/sample/analyse is compared with a freshly built object holding the same live settings; the monitor itself never reads the long-lived object.",
+         "Seeded reconfiguration histories of long-lived Sampler/QuickSampler/Analyzer objects (reassignment, in-place edits of circuit/parameters/source/detector/post-selection, herald variants with equal unitary); each read/sample/analyse is compared with a freshly built object holding the same settings (with freshly created Source/Detector/PostSelection components), a sample of reads also with a pristine process forked before the run's first operation; a setter that raises may change no setting, and no operation may change the settings of a consumer it does not address; the monitor itself never reads the long-lived object.",
          "Trusted: both sides run the same library code, so what the distribution is (C04-C06) is not judged; seeded calls and a shared PRNG stream state make the comparison exact."),
  "C14": ("deterministic simulation with PRNG fault injection: shared stateful Distribution objects, interleaved draws/reseeds/other maps, scripted generators; bounds/seed/structure/unitary invariants per map",
          "Seeded histories of Reck.map calls sharing ErrorModel and Distribution objects with interleaved draws, reseeds, reconfigurations and scripted generator streams (k out-of-bounds normals then an in-bounds one; uniform edge draws); per map: structure, phases in [0,2pi), drawn values within declared bounds, contraction/unitarity, default model reproduces U, same seed+configuration => identical mapped circuit.",
